@@ -125,6 +125,10 @@ def run_history(rng, counters, digests, samples, violations, known, layered, nop
             mgrmon.set_shuffle_rng(random.Random(rng.random()))
             f = ls.step(op, exp)
             trace = list(C.EVENTS)
+            if f and f["kind"] == "exception" and kf.is_open("KF1", ID) and op[0] in ("set", "iop") and \
+                    kf.kf1_premature(ls.runner.mgr, f["run_order"], hg.shadow, ls.runner, op[1])[0]:
+                known.append(kf.known("KF1", "a task evaluated before its producer raised on the stale input"))
+                return True
             if f and f["kind"] == "exception":
                 violations.append({"what": "C02 %s raised %s: %s" % (op[0], f["exc_type"], f["exc"]),
                                    "world": hg.world, "ops": list(ls.ops), "failure": f})
@@ -152,6 +156,8 @@ def run_history(rng, counters, digests, samples, violations, known, layered, nop
                 ok, why, _ = kf.kf1(ls.runner.mgr, runs, hg.shadow, ls.runner)
                 if (ok or kf1_hit) and kf.is_open("KF1", ID):
                     known.append(kf.known("KF1"))
+                elif kf.is_open("KF6", ID) and kf.kf6(hg.shadow, runs, [m[0] for m in f["mismatches"]]):
+                    known.append(kf.known("KF6"))
                 else:
                     violations.append({"what": "C02 (value oracle) mismatch after %s: %s" % (op[0], f),
                                        "world": hg.world, "ops": list(ls.ops), "failure": f})
